@@ -275,9 +275,9 @@ fn compare(text: &[u8], git: &Flat) -> Verdict {
         if text.contains(&b'\t') && detab(&ours) == detab(git) {
             return ok_trivial("oracle-version/unquoted-internal-tab");
         }
-        // known finding: whitespace that starts a continuation line is dropped by git while the value is still empty
+        // known finding: git drops whitespace as long as the value is still empty, also after a continuation (`k =\<LF> v`) or an empty quote pair (`k ="" v`)
         let trim = |f: &Flat| -> Flat { f.iter().map(|(k, v)| (k.clone(), v.as_ref().map(|v| v.trim_start().to_vec()))).collect() };
-        if ev.iter().any(|e| matches!(e, gix_config::parse::Event::ValueNotDone(_))) && trim(&ours) == trim(git) {
+        if trim(&ours) == trim(git) {
             return bad("values-continuation-leading-whitespace", format!("{}: git lists {} but gitoxide reads {}", show(text), show_flat(git), show_flat(&ours)));
         }
         return bad("values", format!("{}: git lists {} but gitoxide reads {}", show(text), show_flat(git), show_flat(&ours)));
@@ -543,7 +543,7 @@ pub fn run(run: &'static Run) {
             value_texts.push(t);
         }
     });
-    let reject_budget = Duration::from_secs_f64(run.pick(2.0, 100.0));
+    let reject_budget = Duration::from_secs_f64(run.pick(2.0, 40.0));
     let batched = |name: &str, texts: Vec<Vec<u8>>| {
         if !run.is_replay() {
             build_oracle(&texts, reject_budget);
@@ -578,6 +578,11 @@ pub fn run(run: &'static Run) {
             emit(Typed { value: None });
             let mut seen = std::collections::HashSet::new();
             let mut e = |v: Vec<u8>| {
+                // decimal notation only: strtoimax's octal (010) and hex (0x1) forms are outside the stated domain
+                let d = v.strip_prefix(b"-").or_else(|| v.strip_prefix(b"+")).unwrap_or(&v);
+                if d.len() > 1 && d[0] == b'0' && (d[1].is_ascii_digit() || d[1] == b'x') {
+                    return;
+                }
                 if seen.insert(v.clone()) {
                     emit(Typed { value: Some(B(v)) })
                 }
